@@ -159,7 +159,7 @@ def sem_project(lines, kind, fam):
     for e in frames_of(lines):
         if e[0] == 'E':
             t = e[1].split(' ')
-            if t[0] in ('R0', 'R1', 'N') and kind in ('addr', 'power'):
+            if t[0] in ('R0', 'R1', 'N') and kind in ('addr', 'power', 'image'):
                 out.append(e[1])
             elif t[0] in ('X0', 'X1', 'Xu', 'U', 'S'):
                 out.append(e[1])
@@ -183,6 +183,13 @@ def sem_project(lines, kind, fam):
             out.append('C %02x %d' % (c, zlen(zs)))
             if c in F['geom'] or c in F['sleep']:
                 out += zs
+        elif kind == 'image':
+            # what reaches image memory and when it is shown: addressing frames, RAM frames with contents, refresh
+            # triggers and the update-control value that qualifies them
+            if c in F['addr'] or c in F['plane'] or (c in F['ctl'] and fam == 'ssd'):
+                out.append('C %02x' % c); out += zs
+            elif c in F['refresh']:
+                out.append('C %02x' % c)
         elif kind == 'lut':
             if c in F['lut'] and not (c in F['refresh']):
                 out.append('C %02x' % c); out += zs
@@ -203,7 +210,7 @@ def rst_project(lines):
                 out.append('SPI')
     return out
 
-SEM = ('addr', 'busy', 'power', 'cmdlen', 'lut', 'rst')
+SEM = ('addr', 'busy', 'power', 'cmdlen', 'lut', 'rst', 'image')
 PROJS = ('frames', 'frames+rst', 'timing', 'wire') + SEM
 
 class Mismatch:
